@@ -8,9 +8,9 @@ use crate::prng::Rng;
 use crate::refi::{parse_pattern, str_match, PKind};
 
 pub const WORDS: &[&str] = &["foo", "bar", "baz", "qux", "Foo", "BAR", "fo", "ob", "a", "b", "x1", "ar", "o", ""];
-pub const TOP_FIELDS: &[&str] = &["a", "b", "c", "d", "num", "flag", "tags", "n.a", "n.b", "m.x", "arr[0]", "arr[1]", "two words", "m.x[1]", "n.a[0]"];
+pub const TOP_FIELDS: &[&str] = &["a", "b", "c", "d", "num", "flag", "tags", "n.a", "n.b", "m.x", "arr[0]", "arr[1]", "two words", "m.x[1]", "n.a[0]", "two  words", " lead", "tab\tkey", "trail "];
 pub const NEST_FIELDS: &[&str] = &["n", "m", "p"];
-pub const INNER_FIELDS: &[&str] = &["a", "b", "x", "y", "q.r"];
+pub const INNER_FIELDS: &[&str] = &["a", "b", "x", "y", "q.r", "x  y"];
 pub const INT_CONSTS: &[i64] = &[0, 1, 2, 5, -1, -3, 10, 7045, i64::MAX, i64::MIN, 9007199254740993];
 pub const FLT_CONSTS: &[f64] = &[0.0, 0.5, 1.0, 1.5, -1.5, 2.0, 10.0, 1e19];
 
@@ -198,6 +198,9 @@ pub fn gen_entry(rng: &mut Rng, cfg: &GenCfg, depth: usize) -> (Key, RVal) {
     } else {
         KMod::None
     };
+    // white space next to the parentheses of a modifier is formatting, so a field whose name
+    // starts or ends with white space can only be addressed by a plain key
+    let modi = if f != f.trim() { KMod::None } else { modi };
     let castm = match &modi {
         KMod::Int | KMod::Flt | KMod::Str => modi.clone(),
         _ => KMod::None,
